@@ -948,6 +948,21 @@ func genEnt(r *vlib.R, fam int, pool *[]netip.Prefix) string {
 			}
 		}
 	}
+	if fam == 6 && r.Chance(1, 8) {
+		// an entry written in IPv4-mapped form, ::ffff:a.b.c.d/N: it is an IPv6
+		// prefix like any other (N < 96 reaches far beyond the mapped block), and
+		// it never stands for the IPv4 network a.b.c.d/(N-96): a mapped SOURCE
+		// counts as IPv4, a mapped ENTRY is not turned into an IPv4 one
+		addr = make([]byte, 16)
+		addr[10], addr[11] = 0xff, 0xff
+		copy(addr[12:], r.Bytes(4))
+		if len(*pool) > 0 && r.Chance(1, 2) {
+			if b := vlib.Pick(r, *pool); b.Addr().Is4() {
+				copy(addr[12:], b.Addr().AsSlice())
+			}
+		}
+		bits = vlib.Pick(r, []int{96, 104, 112, 120, 128, 24, 16, 8, 95, 97, 0, 64})
+	}
 	if addr == nil {
 		addr = r.Bytes(width / 8)
 		if r.Chance(1, 6) {
